@@ -469,9 +469,10 @@ func init() {
 			func(v []byte, a int) []byte { return tknRefit(v, "tag", a) },
 			func(v []byte, a int) []byte { return tknRefit(v, "id", a) },
 			tknFormulaEdge,
-		}})
+			tknHeaderEdit,
+		}, AwareN: 224})
 	Register(&Entry{Name: "tkn20.Policy.ExtractFromCiphertext+CouldDecrypt", Seeds: 1, Cost: 10,
-		Aware: []func([]byte, int) []byte{tknFormulaEdge, func(v []byte, a int) []byte { return tknRefit(v, "header", a) }},
+		Aware: []func([]byte, int) []byte{tknFormulaEdge, func(v []byte, a int) []byte { return tknRefit(v, "header", a) }, tknHeaderEdit}, AwareN: 224,
 		Valid: func(seed uint64) []byte { tknSetup(); return tknCache.ct },
 		Reuse: func() func(in []byte) Result {
 			var p tkn20.Policy
@@ -507,7 +508,7 @@ func init() {
 		"x: y",
 		"((a:1))and(b:2)or c:3",
 	}
-	Register(&Entry{Name: "tkn20.Policy.FromString", Seeds: len(policies), Cost: 2,
+	Register(&Entry{Name: "tkn20.Policy.FromString", Seeds: len(policies), Cost: 2, Text: true,
 		Valid: func(seed uint64) []byte { return []byte(policies[seed%uint64(len(policies))]) },
 		Reuse: func() func(in []byte) Result {
 			var p tkn20.Policy
@@ -560,22 +561,31 @@ var refitSizes = []int{0, 1, 2, 3, 4, 7, 8, 9, 15, 16, 17, 31, 32, 33, 47, 48, 4
 // length-prefixed fields: id (16-bit), macData (32-bit) = header (32-bit) || envelope (32-bit),
 // tag (16-bit); the legacy format has 16-bit prefixes throughout), cuts one field to
 // refitSizes[a] bytes and rewrites the prefixes of the field and of what encloses it.
-func tknRefit(v []byte, field string, a int) []byte {
-	size := refitSizes[((a%len(refitSizes))+len(refitSizes))%len(refitSizes)]
-	le := func(b []byte, w int) int {
-		n := 0
-		for i := w - 1; i >= 0; i-- {
-			n = n<<8 | int(b[i])
-		}
-		return n
+type tknParts struct {
+	skip, w           int
+	id, hdr, env, tag []byte
+	prefix            []byte
+}
+
+func tknLE(b []byte, w int) int {
+	n := 0
+	for i := w - 1; i >= 0; i-- {
+		n = n<<8 | int(b[i])
 	}
-	put := func(n, w int) []byte {
-		out := make([]byte, w)
-		for i := 0; i < w; i++ {
-			out[i] = byte(n >> (8 * i))
-		}
-		return out
+	return n
+}
+
+func tknPut(n, w int) []byte {
+	out := make([]byte, w)
+	for i := 0; i < w; i++ {
+		out[i] = byte(n >> (8 * i))
 	}
+	return out
+}
+
+// tknSplit finds the fields of a tkn20 ciphertext (nil if v does not parse as one).
+func tknSplit(v []byte) *tknParts {
+	le := tknLE
 	for skip := 0; skip <= 12 && skip < len(v); skip++ {
 		for _, w := range []int{4, 2} { // width of the macData / header / envelope prefixes
 			r := v[skip:]
@@ -612,34 +622,163 @@ func tknRefit(v []byte, field string, a int) []byte {
 			if w+el != len(m2) {
 				continue
 			}
-			env := m2[w:]
-			cut := func(b []byte) []byte {
-				if size >= len(b) {
-					return nil
-				}
-				return b[:size]
-			}
-			switch field {
-			case "env":
-				env = cut(env)
-			case "header":
-				hdr = cut(hdr)
-			case "tag":
-				tag = cut(tag)
-			case "id":
-				id = cut(id)
-			}
-			if env == nil || hdr == nil || tag == nil || id == nil {
-				return nil
-			}
-			nm := append(append(append(put(len(hdr), w), hdr...), put(len(env), w)...), env...)
-			out := append([]byte{}, v[:skip]...)
-			out = append(append(out, put(len(id), 2)...), id...)
-			out = append(append(out, put(len(nm), w)...), nm...)
-			return append(append(out, put(len(tag), 2)...), tag...)
+			return &tknParts{skip: skip, w: w, id: id, hdr: hdr, env: m2[w:], tag: tag, prefix: v[:skip]}
 		}
 	}
 	return nil
+}
+
+// build re-assembles the ciphertext with prefixes that fit the (edited) fields.
+func (t *tknParts) build() []byte {
+	put, w := tknPut, t.w
+	nm := append(append(append(put(len(t.hdr), w), t.hdr...), put(len(t.env), w)...), t.env...)
+	out := append([]byte{}, t.prefix...)
+	out = append(append(out, put(len(t.id), 2)...), t.id...)
+	out = append(append(out, put(len(nm), w)...), nm...)
+	return append(append(out, put(len(t.tag), 2)...), t.tag...)
+}
+
+func tknRefit(v []byte, field string, a int) []byte {
+	size := refitSizes[((a%len(refitSizes))+len(refitSizes))%len(refitSizes)]
+	t := tknSplit(v)
+	if t == nil {
+		return nil
+	}
+	cut := func(b []byte) []byte {
+		if size >= len(b) {
+			return nil
+		}
+		return b[:size]
+	}
+	switch field {
+	case "env":
+		t.env = cut(t.env)
+	case "header":
+		t.hdr = cut(t.hdr)
+	case "tag":
+		t.tag = cut(t.tag)
+	case "id":
+		t.id = cut(t.id)
+	}
+	if t.env == nil || t.hdr == nil || t.tag == nil || t.id == nil {
+		return nil
+	}
+	return t.build()
+}
+
+// tknHeaderEdit works on the items of the ciphertext header (16-bit length-prefixed policy and
+// c1 matrix, a 16-bit count and that many prefixed c2 matrices, a 16-bit count and twice that
+// many prefixed c3 matrices; a matrix is rows, cols and rows*cols group elements): the header
+// ends right after an item or a count (or one byte later), or one matrix gets other
+// dimensions — none at all, a row or a column more or fewer, rows and columns swapped — with
+// as many entries as the new dimensions ask for. All enclosing prefixes are refitted.
+func tknHeaderEdit(v []byte, a int) []byte {
+	t := tknSplit(v)
+	if t == nil {
+		return nil
+	}
+	if a < 0 {
+		a = -a
+	}
+	h := t.hdr
+	type span struct{ from, to int } // content of a prefixed item
+	var items []span
+	var bounds []int
+	pos := 0
+	item := func() bool {
+		if pos+2 > len(h) {
+			return false
+		}
+		n := tknLE(h[pos:], 2)
+		if pos+2+n > len(h) {
+			return false
+		}
+		items = append(items, span{pos + 2, pos + 2 + n})
+		pos += 2 + n
+		bounds = append(bounds, pos)
+		return true
+	}
+	count := func() (int, bool) {
+		if pos+2 > len(h) {
+			return 0, false
+		}
+		n := tknLE(h[pos:], 2)
+		pos += 2
+		bounds = append(bounds, pos)
+		return n, true
+	}
+	if !item() || !item() {
+		return nil
+	}
+	n2, ok := count()
+	for i := 0; ok && i < n2; i++ {
+		ok = item()
+	}
+	n3, ok2 := 0, false
+	if ok {
+		n3, ok2 = count()
+	}
+	for i := 0; ok2 && i < 2*n3; i++ {
+		ok2 = item()
+	}
+	if len(bounds) == 0 {
+		return nil
+	}
+	kind := a % 7
+	sel := a / 7
+	switch kind {
+	case 0, 1: // the header ends at a boundary (or a byte later)
+		b := bounds[sel%len(bounds)] + kind
+		if b >= len(h) {
+			return nil
+		}
+		t.hdr = h[:b]
+	default: // matrix dimensions
+		mats := items[1:] // item 0 is the policy
+		if len(mats) == 0 {
+			return nil
+		}
+		m := mats[sel%len(mats)]
+		c := h[m.from:m.to]
+		if len(c) < 4 {
+			return nil
+		}
+		rows, cols := tknLE(c, 2), tknLE(c[2:], 2)
+		if rows*cols == 0 || (len(c)-4)%(rows*cols) != 0 {
+			return nil
+		}
+		el := (len(c) - 4) / (rows * cols)
+		nr, nc := rows, cols
+		switch kind {
+		case 2:
+			nr, nc = 0, 0
+		case 3:
+			nr = rows + 1
+		case 4:
+			nc = cols + 1
+		case 5:
+			nr, nc = cols, rows
+		case 6:
+			if rows > 1 {
+				nr = rows - 1
+			} else {
+				nc = cols - 1
+			}
+		}
+		if nr == rows && nc == cols {
+			return nil
+		}
+		body := append([]byte{}, c[4:]...)
+		for len(body) < nr*nc*el {
+			body = append(body, c[4:4+el]...)
+		}
+		body = body[:nr*nc*el]
+		nm := append(append(tknPut(nr, 2), tknPut(nc, 2)...), body...)
+		nh := append([]byte{}, h[:m.from-2]...)
+		nh = append(append(nh, tknPut(len(nm), 2)...), nm...)
+		t.hdr = append(nh, h[m.to:]...)
+	}
+	return t.build()
 }
 
 // tknFormulaEdge finds the Boolean formula inside a tkn20 ciphertext by its shape (a 16-bit
